@@ -29,6 +29,7 @@ type Opts struct {
 	ShareSubtrees   bool // reuse generated subtrees (rendered as YAML anchor + aliases)
 	BothCommandKeys bool // now and then a command step carries both `command` and `commands`
 	LongPipelines   bool // now and then a pipeline of 31..130 small steps
+	BadStepEntries  bool // now and then an entry of the top-level step list is not a step at all
 	TwoKindSteps    bool // now and then a step mapping carries keys of two step kinds
 	counter         int
 	pool            []*Node
@@ -72,6 +73,14 @@ func (o *Opts) AnyValue(pos string, depth int) *Node {
 	case 0:
 		return Str(o.str(pos + ".val"))
 	case 1:
+		switch t.Draw(24, pos+":hugeint") {
+		case 22:
+			// the unsigned 64-bit range above int64
+			return Uint([]uint64{9223372036854775808, 18446744073709551615, 12345678901234567890}[t.Draw(3, pos+":uintv")])
+		case 23:
+			// whole numbers beyond 64 bits: floats to YAML and JSON readers alike
+			return Float([]float64{18446744073709551616, 1e21, 6e21, -3e25, 1.5e19}[t.Draw(5, pos+":hugefloat")])
+		}
 		if t.Draw(8, pos+":bigint") == 7 {
 			return Int([]int64{9007199254740993, -9007199254740993, 9223372036854775807, 4294967296, 9007199254740991}[t.Draw(5, pos+":bigintv")])
 		}
@@ -391,6 +400,10 @@ func (o *Opts) Cache() *Node {
 		n := 1 + t.Draw(3, "cache:npaths")
 		s := &Node{Kind: KSeq, Seq: []*Node{}}
 		for i := 0; i < n; i++ {
+			if t.Draw(12, "cache:nullpath") == 11 {
+				s.Seq = append(s.Seq, Null())
+				continue
+			}
 			s.Seq = append(s.Seq, Str(o.str("cache.path")))
 		}
 		return s
@@ -441,8 +454,13 @@ func (o *Opts) commandList() *Node {
 	n := 1 + t.Draw(3, "cmd:n")
 	s := &Node{Kind: KSeq, Seq: []*Node{}}
 	for i := 0; i < n; i++ {
-		if t.Draw(10, "cmd:emptyline") == 9 {
+		switch t.Draw(20, "cmd:emptyline") {
+		case 18, 19:
 			s.Seq = append(s.Seq, Str(""))
+			continue
+		case 17:
+			// a null item in a list of strings reads as the empty string
+			s.Seq = append(s.Seq, Null())
 			continue
 		}
 		s.Seq = append(s.Seq, Str(o.str("command")))
@@ -716,6 +734,13 @@ func (o *Opts) Pipeline() *Node {
 	}
 	for i := 0; i < n; i++ {
 		steps.Seq = append(steps.Seq, o.Step(0))
+	}
+	if o.BadStepEntries && t.Draw(10, "pipe:bad-entry") == 9 {
+		// an entry that is neither a string nor a mapping (or a mapping whose type is not a string): no step
+		// can be made of it
+		bad := []*Node{Int(42), Bool(true), Null(), Float(1.5), Seq(Str("wait")), Map().Set("type", Int(5)).Set("command", Str("x"))}[t.Draw(6, "pipe:bad-entry-kind")]
+		at := t.Draw(len(steps.Seq)+1, "pipe:bad-entry-at")
+		steps.Seq = append(steps.Seq[:at:at], append([]*Node{bad}, steps.Seq[at:]...)...)
 	}
 	if o.BareList && t.Draw(8, "pipe:bare") == 7 {
 		return steps
